@@ -3,6 +3,9 @@ package ipamsim
 import (
 	"strings"
 
+	corev1 "k8s.io/api/core/v1"
+	metav1 "k8s.io/apimachinery/pkg/apis/meta/v1"
+
 	"verifharness/vcore"
 )
 
@@ -173,6 +176,7 @@ func (o *ObsC07) AfterOp(x *Exec, i int, op Op, res *OpResult) *vcore.Failure {
 // ---------- C09: reserved and de-configured IPs are never allocated; reload is lossless ----------
 
 type ObsC09 struct {
+	Probes      int
 	leftover    map[string]bool // objects of de-configured IPs whose deletion failed because of the injected API error
 	bindSeen    int
 	DroppedKept bool // a reload dropped >= 1 allocated IP and kept >= 1
@@ -259,6 +263,11 @@ func (o *ObsC09) AfterOp(x *Exec, i int, op Op, res *OpResult) *vcore.Failure {
 			return vcore.Failf("c09:reload:stale_object", "after a reload the FloatingIP object %s still exists although the IP is not configured", ip)
 		}
 	}
+	// the daemon's view of the nodes follows the configuration: a fresh default-policy pod is offered exactly the nodes from which
+	// a free configured IP is routable (a node subnet cached from the previous configuration would say otherwise for good)
+	if f := o.probeNodes(x); f != nil {
+		return f
+	}
 	if x.LastQuiescent != nil && op.K == "reload" && !res.Concurrent {
 		// lossless: a reload running alone keeps every allocation whose IP is still configured, owner and policy unchanged
 		for ip, before := range x.LastQuiescent.Alloc {
@@ -291,5 +300,46 @@ func (o *ObsC09) AfterOp(x *Exec, i int, op Op, res *OpResult) *vcore.Failure {
 			o.DroppedKept = true
 		}
 	}
+	return nil
+}
+
+// probeNodes filters a pod that exists nowhere (no owner, default policy, no ranges: Filter allocates nothing for it) against all
+// nodes and compares the answer with the configuration in force.
+func (o *ObsC09) probeNodes(x *Exec) *vcore.Failure {
+	w := x.W
+	_, unalloc := w.Tables()
+	probe := &corev1.Pod{ObjectMeta: metav1.ObjectMeta{Name: "c09-probe", Namespace: NS, UID: "c09-probe-uid"}, Spec: eniPodSpec()}
+	var nodes []corev1.Node
+	for _, n := range w.Topo.Nodes {
+		nodes = append(nodes, *n.Object())
+	}
+	var out []corev1.Node
+	var err error
+	w.runOp(func() { out, _, err = w.Plugin.Filter(probe, nodes) })
+	if err != nil {
+		return nil
+	}
+	offered := map[string]bool{}
+	for _, n := range out {
+		offered[n.Name] = true
+	}
+	for _, n := range w.Topo.Nodes {
+		want := false
+		for _, p := range x.ConfInForce {
+			if !p.RoutableFrom(n.IP) {
+				continue
+			}
+			for ip := range AllIPsOf([]PoolT{p}) {
+				if _, free := unalloc[ip]; free {
+					want = true
+				}
+			}
+		}
+		if want != offered[n.Name] {
+			return vcore.Failf("c09:reload:node_view", "after a reload node %s (%s): the configuration in force has a free IP routable from it = %v, but a "+
+				"fresh default-policy pod is offered the node = %v", n.Name, n.IP, want, offered[n.Name])
+		}
+	}
+	o.Probes++
 	return nil
 }
